@@ -969,11 +969,17 @@ def c14_worker(item):
     seed, binary = item
     r = random.Random(seed * 982451653 + 14)
     res = Res()
-    shape = r.choice(["plain", "plain", "plain", "empty-source", "empty-patch", "empty-series", "all-applied", "goal-applied", "symlinked-source", "symlinked-patch"])
+    shape = r.choice(["plain", "plain", "plain", "empty-source", "empty-patch", "empty-series", "all-applied", "goal-applied", "symlinked-source", "symlinked-patch",
+                      "many-files-low-fd-limit"])
     cfg = wsgen.GenConfig(p_fail=0.5, max_patches=r.choice([1, 3, 6]))
     ws = wsgen.generate(seed, cfg)
     first = 0
     goal = ["-a"]
+    nofile = None
+    if shape == "many-files-low-fd-limit":
+        # more files and patches than the process may have open at once: a loader must not hold on to descriptors
+        nofile = 48
+        ws = wsgen.generate_long(seed, r.randint(70, 90), nfiles=60, p_fail=0.2)
     if shape == "empty-source":
         # an existing zero-length file that a patch fills, and one that is only renamed / chmod-ed
         for t in ws.trees:
@@ -1044,8 +1050,8 @@ def c14_worker(item):
             runner.copy_ws(orig, w1)
         w2 = os.path.join(scr, "w2")
         runner.copy_ws(orig, w2)
-        r1 = runner.run_rq(binary, w1, base)
-        r2 = runner.run_rq(binary, w2, var)
+        r1 = runner.run_rq(binary, w1, base, nofile=nofile)
+        r2 = runner.run_rq(binary, w2, var, nofile=nofile)
         res["evals"] = 1
         if r1.timed_out or r2.timed_out:
             res["inconclusive"] = "watchdog"
@@ -1122,12 +1128,21 @@ def c16_options_case(r, seed, binary, res):
         lines.append("# trailing comment")
     threads = r.choice([1, 4])
     args = base_args(threads=threads, backup=r.choice(["never", None]), verbosity="-q") + ["push", "-a"]
+    split = r.random() < 0.3
     with Scratch("c16") as scr:
         orig, work = fresh(scr, ws, 0)
         for d in (orig, work):
             with open(os.path.join(d, "series"), "w") as f:
                 f.write("\n".join(lines) + "\n")
-        rr = runner.run_rq(binary, work, args)
+        if split:
+            # the options must also be honoured (and the applied entries recognised) across separate invocations
+            res.count("options-runs-split-into-single-pushes")
+            one = base_args(threads=threads, backup="never", verbosity="-q") + ["push"]
+            for _ in range(len(ws.patches) - 1):
+                rr0 = runner.run_rq(binary, work, one)
+                if rr0.rc != 0:
+                    break
+        rr = runner.run_rq(binary, work, args if not split else base_args(threads=threads, backup="never", verbosity="-q") + ["push", "-a"])
         res["evals"] += 1
         sig0 = {"part": "options", "driver": "seq" if threads == 1 else "par"}
         out = cli.check_push_outcome(res, ws, work, rr, 0, len(ws.patches), sig0, [binary] + args)
@@ -2420,7 +2435,7 @@ def c11_worker(item):
             desc = {"mode": "series", "series": line}
         with open(os.path.join(work, "series"), "wb") as f:
             f.write(series.encode("latin-1", "replace"))
-        args = base_args(threads=r.choice([1, 4]), verbosity=r.choice(["-q", None]), extra=r.choice([[], ["-F", "3"], ["--dry-run"], ["--backup", "always"], ["--mmap"]])) + ["push", "-a"]
+        args = base_args(threads=r.choice([1, 4]), verbosity=r.choice(["-q", None]), extra=r.choice([[], ["-F", "3"], ["--dry-run"], ["--backup", "always"], ["--mmap"], ["-A", "multiapply"], ["-A", "multiapply", "-F", "2"]])) + ["push", "-a"]
         rr = runner.run_rq(binary, work, args, timeout=40)
         res["evals"] = 1
         sig0 = {"engine": "cli", "input": desc["mode"]}
